@@ -155,8 +155,12 @@ static void run(Tape &t, Ctx &c, bool requireTls)
     const char *header10 = "<?xml version='1.0'?><stream:stream xmlns='jabber:client' xmlns:stream='http://etherx.jabber.org/streams' from='example.org' id='%1' version='1.0'>";
     // macro: what an ordinary server does to get a client authenticated over TLS
     auto tlsUpgradeAndOffer = [&] {
-        history += " [features{starttls(required) sasl[PLAIN,SCRAM-SHA-1,DIGEST-MD5]}";
-        srv.send(conn, QStringLiteral("<stream:features><starttls xmlns='urn:ietf:params:xml:ns:xmpp-tls'><required/></starttls><mechanisms xmlns='urn:ietf:params:xml:ns:xmpp-sasl'><mechanism>PLAIN</mechanism><mechanism>SCRAM-SHA-1</mechanism><mechanism>DIGEST-MD5</mechanism></mechanisms></stream:features>"));
+        static const QStringList offers = { "<mechanism>PLAIN</mechanism>", "<mechanism>SCRAM-SHA-1</mechanism>", "<mechanism>DIGEST-MD5</mechanism>", "<mechanism>PLAIN</mechanism><mechanism>SCRAM-SHA-1</mechanism><mechanism>DIGEST-MD5</mechanism>" };
+        static const char *offerNames[] = { "PLAIN", "SCRAM-SHA-1", "DIGEST-MD5", "PLAIN,SCRAM-SHA-1,DIGEST-MD5" };
+        const int oi = int(t.u(4));
+        const QString mechs = QStringLiteral("<mechanisms xmlns='urn:ietf:params:xml:ns:xmpp-sasl'>") + offers[oi] + QStringLiteral("</mechanisms>");
+        history += std::string(" [features{starttls(required) sasl[") + offerNames[oi] + "]}";
+        srv.send(conn, QStringLiteral("<stream:features><starttls xmlns='urn:ietf:params:xml:ns:xmpp-tls'><required/></starttls>") + mechs + QStringLiteral("</stream:features>"));
         reachedAuthCapable = true;
         lb::settle();
         if (!conn.encrypted && !tlsStarted && conn.plain.contains("<starttls")) {
@@ -169,10 +173,10 @@ static void run(Tape &t, Ctx &c, bool requireTls)
             srv.startTls(conn);
             lb::settleUntil([&] { return conn.encrypted || conn.closedByPeer; }, 4000);
             if (conn.encrypted) {
-                history += "(ok) header features{sasl[PLAIN,SCRAM-SHA-1,DIGEST-MD5]}";
+                history += std::string("(ok) header features{sasl[") + offerNames[oi] + "]}";
                 lb::settle();
                 srv.send(conn, QString::fromLatin1(header10).arg(streamId));
-                srv.send(conn, QStringLiteral("<stream:features><mechanisms xmlns='urn:ietf:params:xml:ns:xmpp-sasl'><mechanism>PLAIN</mechanism><mechanism>SCRAM-SHA-1</mechanism><mechanism>DIGEST-MD5</mechanism></mechanisms></stream:features>"));
+                srv.send(conn, QStringLiteral("<stream:features>") + mechs + QStringLiteral("</stream:features>"));
                 lb::settle();
             } else {
                 history += "(handshake did not complete: " + q(conn.errors) + ")";
@@ -272,7 +276,15 @@ static void run(Tape &t, Ctx &c, bool requireTls)
                 encryptionImpossible = true;
             srv.send(conn, QStringLiteral("<failure xmlns='urn:ietf:params:xml:ns:xmpp-tls'/>"));
             break;
-        case 6: history += " sasl-challenge"; srv.send(conn, QStringLiteral("<challenge xmlns='urn:ietf:params:xml:ns:xmpp-sasl'>cj1meWtvK2QybGJiRmdPTlJ2OXFreGRhd0wzcmZjTkhZSlkxWlZ2V1ZzN2oscz1RU1hDUitRNnNlazhiZjkyLGk9NDA5Ng==</challenge>")); break;
+        case 6:
+            if (t.b()) {
+                history += " sasl-challenge(scram)";
+                srv.send(conn, QStringLiteral("<challenge xmlns='urn:ietf:params:xml:ns:xmpp-sasl'>cj1meWtvK2QybGJiRmdPTlJ2OXFreGRhd0wzcmZjTkhZSlkxWlZ2V1ZzN2oscz1RU1hDUitRNnNlazhiZjkyLGk9NDA5Ng==</challenge>"));
+            } else {
+                history += " sasl-challenge(digest-md5)";
+                srv.send(conn, QStringLiteral("<challenge xmlns='urn:ietf:params:xml:ns:xmpp-sasl'>") + QString::fromLatin1(QByteArray("realm=\"example.org\",nonce=\"OA6MG9tEQGm2hh\",qop=\"auth\",charset=utf-8,algorithm=md5-sess").toBase64()) + QStringLiteral("</challenge>"));
+            }
+            break;
         case 7: history += " sasl-success"; srv.send(conn, QStringLiteral("<success xmlns='urn:ietf:params:xml:ns:xmpp-sasl'/>")); break;
         case 8: history += " sasl-failure"; srv.send(conn, QStringLiteral("<failure xmlns='urn:ietf:params:xml:ns:xmpp-sasl'><not-authorized/></failure>")); break;
         case 9: {
